@@ -16,8 +16,10 @@ ASSUMPTIONS = ["rustls (handshake, record layer, certificate validation) is an o
 SSL_CAPS = DEFAULT_CAPS | CLIENT_SSL
 
 
-def mk(cid, lim=U24_MAX, tls=1, auth="ok", clientcert=0, user=b"jon", split=0, prechunks=None, chunks="*", cmds=(), scripts=(), bighello=0, wcap=0, caps2=None):
-    pre = frame(ssl_request(SSL_CAPS), 1, lim)
+def mk(cid, lim=U24_MAX, tls=1, auth="ok", clientcert=0, user=b"jon", split=0, prechunks=None, chunks="*", cmds=(), scripts=(), bighello=0, wcap=0, caps2=None, pre320=None):
+    # pre320: the SSL request in the pre-4.1 layout (2-byte capabilities with CLIENT_SSL, 3-byte max packet size) and,
+    # as that layout has it, a user name sent in the clear -- the name that counts is the one sent over TLS
+    pre = frame(ssl_request(SSL_CAPS), 1, lim) if pre320 is None else frame(le(0x0805, 2) + le(0xffffff, 3) + pre320 + b"\x00", 1, lim)
     hs2 = hs41(user, caps=SSL_CAPS if caps2 is None else caps2)
     plain = frame(hs2, 2, lim)
     for kind, payload in cmds:
@@ -73,6 +75,9 @@ def oracle(meta, obs):
     else:
         if len(calls) != 1 or not r.startswith("err Shim:"):
             fails.append("rejected authentication: callbacks %s result %s" % (calls, r))
+        if not msgs or msgs[0][0] != first or not msgs[0][2] or msgs[0][2][0] != 0xff or msgs[0][2][1:3] != le(1045, 2):
+            fails.append("rejected authentication over TLS: the client must receive ERR 1045 with id %d, got %s" % (
+                first, ("id %d %s" % (msgs[0][0], msgs[0][2][:12].hex())) if msgs else "nothing"))
     return fails
 
 
@@ -119,6 +124,10 @@ def run(ctx):
         n += 1
         cases.append(mk("c18_%d" % n, cmds=[("query", cmd_query(b"blob")), ("ping", cmd_ping())],
                         scripts=["q start 1 %s wr 1 b:r%dx62 p fin" % (col(b"a", 252, 0), big)], chunks="*", clientcert=0))
+    # an SSL request in the pre-4.1 layout carrying a (different) user name in the clear
+    for auth in ("ok", "rej:5"):
+        n += 1
+        cases.append(mk("c18_%d" % n, pre320=b"eve", user=b"alice", auth=auth, cmds=cmdsets[0], scripts=scripts, split=rng.choice([0, 9])))
     # the encrypted handshake response need not repeat the capability bits of the SSL request
     for caps2 in (DEFAULT_CAPS, 0x200, DEFAULT_CAPS | 0x8, (rng.getrandbits(32) | 0x200) & ~0x800, (rng.getrandbits(32) | 0xa00)):
         n += 1
